@@ -16,8 +16,8 @@
 (* function of the trace (Keep); the stress-relief rule is a function of   *)
 (* the trace as well (SKeep, StressRate).                                  *)
 (*                                                                         *)
-(* A span is routed by the SAME operator (Arrive) whichever listener it    *)
-(* came in on, exactly as processEvent is one function for both routers:   *)
+(* A span is routed by the SAME operators (UpAdd, PeerAdd, BufAfter ...)   *)
+(* whichever listener it came in on, as processEvent serves both routers:  *)
 (* the cluster-wide properties (one hop, one owner, exactly-once) are      *)
 (* consequences of every node evaluating the same Owner, not assumptions.  *)
 (*                                                                         *)
@@ -39,6 +39,7 @@ CONSTANTS Nodes,        \* node names (strings)
           SKeep,        \* traces the stress-relief rule keeps
           StressRate,   \* the stress-relief rule's rate
           WithPlain,    \* also send events without a trace id
+          Epochs,       \* a cluster at rest may be reused for a fresh run (binding only: fewer cluster rebuilds per walk)
           Compress      \* peer traffic zstd-compressed (parameter of the binding only)
 
 VARIABLES stressed,  \* [node -> BOOLEAN]
@@ -197,12 +198,32 @@ SetStress(n, b) ==
   /\ act' = [name |-> "SetStress", n |-> n, on |-> b]
   /\ UNCHANGED <<buf, dropped, keptRate, upQ, peerQ, hny, inbox, decs, sent>>
 
+\* A cluster at rest starts over with traces it has never seen (the binding picks fresh trace ids with the
+\* same owners and verdicts and forgets what it observed): back to Init.  No new state, and it claims that
+\* nothing a node keeps from an earlier run - decision memory of other traces, idle connections, batch
+\* bookkeeping, counters - matters to a later one; the replayed walks test that claim.
+NewEpoch ==
+  /\ Epochs /\ sent # <<>>
+  /\ \A n \in Nodes : upQ[n] = {} /\ peerQ[n] = {} /\ \A t \in Traces : buf[n][t] = {}
+  /\ stressed' = [n \in Nodes |-> FALSE]
+  /\ buf' = [n \in Nodes |-> [t \in Traces |-> {}]]
+  /\ dropped' = [n \in Nodes |-> {}]
+  /\ keptRate' = [n \in Nodes |-> [t \in Traces |-> 0]]
+  /\ upQ' = [n \in Nodes |-> {}]
+  /\ peerQ' = [n \in Nodes |-> {}]
+  /\ hny' = {}
+  /\ inbox' = [n \in Nodes |-> {}]
+  /\ decs' = [n \in Nodes |-> {}]
+  /\ sent' = <<>>
+  /\ act' = [name |-> "NewEpoch"]
+
 Next == \/ \E n \in Nodes, t \in Traces, cr \in CRates, sh \in Shapes : Send(n, t, cr, sh)
         \/ \E n \in Nodes, cr \in CRates : SendPlain(n, cr)
         \/ \E n \in Nodes : DispatchPeer(n)
         \/ \E n \in Nodes : CollectTick(n)
         \/ \E n \in Nodes : DispatchUp(n)
         \/ \E n \in Nodes, b \in BOOLEAN : SetStress(n, b)
+        \/ NewEpoch
 
 Spec == Init /\ [][Next]_vars
 FairSpec == Spec /\ \A n \in Nodes : WF_vars(DispatchPeer(n)) /\ WF_vars(CollectTick(n)) /\ WF_vars(DispatchUp(n))
@@ -231,8 +252,11 @@ InOnePlace ==   \* a span is in one place at a time: a queue towards Honeycomb, 
   \A i \in Ids :
     Cardinality({r \in hny : r.id = i}) + Cardinality({n \in Nodes : \E r \in upQ[n] : r.id = i})
       + Cardinality({r \in AllPeer : r.id = i /\ ~r.probe}) + Cardinality(AllBuf(i)) <= 1
-NeverIfDropped == \A r \in AllUp : r.t # "" /\ ~r.stressed => r.t \in Keep
-StressVerdict  == \A r \in AllUp : r.stressed => r.t \in SKeep \/ r.t \in Keep
+\* every span on its way to Honeycomb was kept by a rule: the sampler's verdict, or - only where stress relief
+\* exists - the stress rule's; and the node that queued it remembers having kept its trace (C01 late spans, C16)
+VerdictRespected == \A r \in AllUp : r.t # "" => r.t \in Keep \/ (~NoStress /\ r.t \in SKeep)
+StressVerdict    == \A r \in AllUp : r.stressed => ~NoStress
+JustifiedAtNode  == \A n \in Nodes : \A r \in upQ[n] : r.t # "" => keptRate[n][r.t] > 0
 \* (E1, at quiescence) with no stress relief: a span reaches Honeycomb iff its trace's verdict is keep, whichever node it entered
 ExactlyOnceAtRest ==
   NoStress /\ Quiescent => \A i \in Ids : (TraceOf(i) = "" \/ TraceOf(i) \in Keep) <=> (\E r \in hny : r.id = i)
@@ -244,8 +268,7 @@ AccountedAtRest ==
 \* spans kept by the stress rule (C04: "stress-relief spans use the stress-relief rate")
 RatesCompose ==
   \A r \in AllUp : IF r.t = "" THEN r.rate = CRateOf(r.id)
-                   ELSE IF ~r.stressed THEN r.rate = CRateOf(r.id) * SamplerRate
-                   ELSE r.rate \in {CRateOf(r.id) * SamplerRate, CRateOf(r.id) * StressRate}
+                   ELSE r.rate \in {CRateOf(r.id) * k : k \in {SamplerRate} \cup (IF NoStress \/ r.t \notin SKeep THEN {} ELSE {StressRate})}
 
 \* (E3) without stress relief only the owner ever buffers or decides a trace
 OnlyOwnerCollects ==
@@ -265,9 +288,9 @@ NoSelfForward == \A n \in Nodes : \A r \in peerQ[n] : r.to # n /\ r.to = Owner[r
 ArrivesAtOwner == \A n \in Nodes : \A r \in inbox[n] : Owner[r.t] = n
 
 \* decisions are remembered (C01 late spans, C16)
-Remembered == [][\A n \in Nodes, t \in Traces : Known(n, t) => Known(n, t)']_vars
+Remembered == [][act'.name # "NewEpoch" => \A n \in Nodes, t \in Traces : Known(n, t) => Known(n, t)']_vars
 \* Honeycomb only ever gains events
-HnyGrows == [][hny \subseteq hny']_vars
+HnyGrows == [][act'.name # "NewEpoch" => hny \subseteq hny']_vars
 
 \* liveness under fair ticks and dispatches (tlc stage): every span of a kept trace eventually reaches Honeycomb
 Delivered == \A i \in 1 .. MaxSpans :
